@@ -1051,6 +1051,9 @@ impl<'p> Evaluator<'_, 'p> {
     }
 }
 
+// Maximum precision passed to `format!` (which accepts up to `u16::MAX`).
+const MAX_HOST_PREC: usize = 1100;
+
 fn render_float_def(
     value: f64,
     prec: usize,
@@ -1063,7 +1066,10 @@ fn render_float_def(
     let value_abs = value.abs();
     let is_neg = value.is_sign_negative() && value != 0.0;
 
-    let mut digits_str = format!("{value_abs:.prec$}");
+    // A `f64` never has more than 1074 fractional digits, the rest are zeros.
+    let host_prec = prec.min(MAX_HOST_PREC);
+    let mut digits_str = format!("{value_abs:.host_prec$}");
+    digits_str.extend(std::iter::repeat_n('0', prec - host_prec));
     if prec == 0 && ensure_pt {
         digits_str.push('.');
     } else if prec != 0 && trim_zeros {
@@ -1090,9 +1096,13 @@ fn render_float_exp(
     let value_abs = value.abs();
     let is_neg = value.is_sign_negative() && value != 0.0;
 
-    let digits_str = format!("{value_abs:.prec$e}");
+    // A `f64` never has more than 767 significant digits, the rest are zeros.
+    let host_prec = prec.min(MAX_HOST_PREC);
+    let digits_str = format!("{value_abs:.host_prec$e}");
     let e_pos = digits_str.bytes().position(|chr| chr == b'e').unwrap();
-    let mut mant_str = &digits_str[..e_pos];
+    let mut mant_string = String::from(&digits_str[..e_pos]);
+    mant_string.extend(std::iter::repeat_n('0', prec - host_prec));
+    let mut mant_str = mant_string.as_str();
     if prec != 0 && trim_zeros {
         mant_str = mant_str.trim_end_matches('0');
         if !ensure_pt {
